@@ -973,6 +973,31 @@ func checkLocationPrinter(c *Ctx, bl, pl *ssa.Function) {
 			}
 		}
 	}
+	// the two partial flags are independent: some printed form has to carry both markers
+	{
+		has5, has3, hasBoth, allFlat := false, false, false, true
+		for _, a := range leafAlts {
+			flat := flattenLeaf(tb, a.t)
+			if flat == nil {
+				allFlat = false
+				continue
+			}
+			joined := strings.Join(flat, " ")
+			f5, f3 := strings.Contains(joined, `"<"`), strings.Contains(joined, `">"`)
+			has5, has3 = has5 || f5, has3 || f3
+			if f5 && f3 {
+				hasBoth = true
+			}
+		}
+		switch {
+		case has5 && has3 && hasBoth:
+			c.ok("TERM-PRINT", "a span partial at both ends is written with both markers", bl.Pos(), "one printed form carries '<' and '>' together")
+		case has5 && has3 && allFlat:
+			c.bad("TERM-PRINT", "a span partial at both ends is written with both markers", bl.Pos(), "the span is printed with '<' in one form and with '>' in another, but in no form with both: the two flags are tested as alternatives, so a location partial at both ends loses one of its markers when it is written")
+		case has5 && has3:
+			c.undecided("TERM-PRINT", "a span partial at both ends is written with both markers", bl.Pos(), "not every printed form of a span was read")
+		}
+	}
 	c.judge(fiveSt, "TERM-PRINT", "'<' immediately before the start coordinate", bl.Pos(), "<n..m", fiveWhy)
 	c.judge(threeSt, "TERM-PRINT", "'>' immediately before the end coordinate", bl.Pos(), "n..>m", threeWhy+"; INSDC writes n..>m (the marker precedes the end coordinate), other readers reject n..m>")
 }
